@@ -119,13 +119,13 @@ def freeze_sweep(profile, nb, kmax, tag):
 L2Q, L2T = (50, 2), (600, 4)
 
 PLANS = {
-    "C01": dict(mc=MC("sync", "mixed"), runs=[R("general", (250, 4000), (3, 6), "C01", True), R("sync", (150, 2000), (3, 6), "C01", True),
+    "C01": dict(mc=MC("sync", "mixed") + MCA("2p"), spec_l1l0=True, runs=[R("general", (250, 4000), (3, 6), "C01", True), R("sync", (150, 2000), (3, 6), "C01", True),
                       R("async", (150, 2000), (3, 6), "C01", True), R("chain", (100, 2000), (2, 6), "C01", True)]),
     "C02": dict(mc=MC("sync", "mixed"), runs=[R("chain_s", (250, 4000), (3, 6), "C02", True), R("fifo", (250, 5000), (4, 8), "C02"), R("general", (150, 2000), (3, 5), "C02")]),
-    "C03": dict(mc=MC("mixed", "async"), spec_replay=True, runs=[R("general", (400, 8000), (3, 6), None, True), R("sync", (150, 2000), (3, 6), None, True),
+    "C03": dict(mc=MC("mixed", "async") + MCA("2p"), spec_replay=True, spec_l1l0=True, runs=[R("general", (400, 8000), (3, 6), None, True), R("sync", (150, 2000), (3, 6), None, True),
                       R("async", (150, 3000), (3, 6), None, True), R("timed", (150, 3000), (3, 6), None, True),
                       R("chain", (150, 3000), (2, 6), None, True), R("close", (200, 3000), (3, 6), None, True)]),
-    "C05": dict(mc=MC("timed", "async"), runs=[R("general", (250, 4000), (3, 6), "C05", True), R("timed", (200, 3000), (3, 6), "C05", True),
+    "C05": dict(mc=MC("timed", "async") + MCA("2p"), spec_l1l0=True, runs=[R("general", (250, 4000), (3, 6), "C05", True), R("timed", (200, 3000), (3, 6), "C05", True),
                       R("async", (200, 3000), (3, 6), "C05", True), R("chain", (100, 2000), (2, 6), "C05", True)]),
     "C07": dict(mc=MC("sync", "async"),
                 runs=[R("hbfreeze", (0, 0), (1, 1), None, False, programs_fn=hbfreeze_programs, rawmon=[("HBMonitor", "HBMonitor.cfg")]),
@@ -380,6 +380,9 @@ def run_check(prop, tier, seed, build=True):
     if plan.get("spec_replay"):
         import replay
         stage("spec-replay", lambda: replay.run_stage(wd, tier, seed, stats, findings))
+    if plan.get("spec_l1l0"):
+        import l1l0
+        stage("l1-l0", lambda: l1l0.run_stage(wd, tier, seed, stats, findings))
     known = load_known()
     rc = 0
     nviol = 0
@@ -409,6 +412,8 @@ def run_check(prop, tier, seed, build=True):
         spec_behaviours_replayed=stats.get("spec_behaviours_replayed", 0),
         spec_behaviours_same_results=stats.get("spec_behaviours_same_results", 0),
         spec_behaviours_followed_exactly=stats.get("spec_behaviours_followed_exactly", 0),
+        ideal_channel_histories_accepted_by_l0=stats.get("spec_l1_histories_l0", 0),
+        ideal_channel_histories_accepted_by_l1_validator=stats.get("spec_l1_histories_l1", 0),
         samples=(stats["samples"] or [dict(note="no execution recorded")]) + ([stats["spec_sample"]] if stats.get("spec_sample") else []),
         model_checking=stats["mc"],
         model_states=stats["mc_states"], model_transitions=stats["mc_trans"],
